@@ -4,11 +4,10 @@ CONSTANTS
   Subs <- S0
   Ids <- I1
   MaxV = 6
-  Programs <- ValPrograms
+  Programs <- CollPrograms
   SubKinds <- Kinds
-  InitStores <- ValStores
+  InitStores <- CollStores
   PublishAfterUnlock = FALSE
-  CreatedRevalidated = TRUE
-VIEW ViewNoHist
-INVARIANTS TypeOK CommitValid EffectOnce LoserCodes
+  CreatedRevalidated = FALSE
+INVARIANT EmitSched
 CHECK_DEADLOCK FALSE
